@@ -111,4 +111,9 @@ def run(ctx, chk):
                                 "reinterpretation of the big-endian integer of the same width (shared with C15.bits-decode)")
     import ownership as _O8
     check_bits_decode(chk, "C08.bits-decode", prog, _O8.PathCache(prog, eff))
+    chk.rule("C08.stateless", "the decoder is a function of its arguments: nothing reachable from cbor_stream_decode writes an object with static storage "
+             "(no memo of the previous call, no flag that survives it) - the answer for a buffer does not depend on what was decoded before "
+             "(transitive write sets from the effects engine; shared with C17.no-global-write)")
+    import rules as _rst
+    _rst.check_stateless(chk, "C08.stateless", prog, eff, ('cbor_stream_decode',))
     chk.exhaustive = True
